@@ -205,6 +205,11 @@ type vfE3Conn struct {
 	srv    *tcpServer
 	client *clientV2
 	settle func() // called before EOF is delivered and before every write: let the topic pumps finish
+	// audit09 (held connections): when hold is non-nil EOF is delivered only after hold is closed;
+	// drained is closed once the server asks for more bytes than the stream has
+	hold      chan struct{}
+	drained   chan struct{}
+	drainOnce sync.Once
 }
 
 func (c *vfE3Conn) Read(p []byte) (int, error) {
@@ -222,6 +227,12 @@ func (c *vfE3Conn) Read(p []byte) (int, error) {
 		if c.settle != nil {
 			c.mu.Unlock()
 			c.settle()
+			c.mu.Lock()
+		}
+		if c.hold != nil {
+			c.drainOnce.Do(func() { close(c.drained) })
+			c.mu.Unlock()
+			<-c.hold
 			c.mu.Lock()
 		}
 		return 0, io.EOF
@@ -273,15 +284,25 @@ type vfE3Result struct {
 	upgraded bool
 	json     []byte    // payload of the last JSON response frame (IDENTIFY / AUTH document)
 	cl       *clientV2 // the connection's client object (white-box reads after the run)
+	done     chan interface{} // audit09: receives once tcpServer.Handle has returned (held connections)
 }
 
 // vfE3RunConn feeds one byte stream to the real tcpServer.Handle (magic + IOLoop) and reports the
 // frames answered, how the connection ended (from the error tcp.go logs when IOLoop fails) and
 // the final state of the clientV2.
 func (v *vfE3Node) RunConn(stream []byte, rnd *vfRand) vfE3Result {
+	return v.RunConnHold(stream, rnd, nil)
+}
+
+// RunConnHold is RunConn; with a non-nil hold the connection stays open after its bytes (the server
+// blocks in Read until hold is closed): the result is taken when the server has consumed the stream.
+func (v *vfE3Node) RunConnHold(stream []byte, rnd *vfRand, hold chan struct{}) vfE3Result {
 	v.connID++
 	addr := vfE3Addr{fmt.Sprintf("127.0.0.1:%d", 20000+v.connID)}
-	c := &vfE3Conn{in: stream, rnd: rnd, addr: addr, srv: v.n.tcpServer, settle: v.SettleAll}
+	c := &vfE3Conn{in: stream, rnd: rnd, addr: addr, srv: v.n.tcpServer, settle: v.SettleAll, hold: hold}
+	if hold != nil {
+		c.drained = make(chan struct{})
+	}
 	v.log.Reset()
 	done := make(chan interface{}, 1)
 	go func() {
@@ -289,8 +310,11 @@ func (v *vfE3Node) RunConn(stream []byte, rnd *vfRand) vfE3Result {
 		v.n.tcpServer.Handle(c)
 	}()
 	var res vfE3Result
+	res.done = done
 	select {
+	case <-c.drained: // nil (blocks for ever) unless the connection is held open
 	case p := <-done:
+		done <- p
 		if p != nil {
 			res.end = "panic"
 			res.conn = "-"
